@@ -35,26 +35,27 @@ import (
 )
 
 type Req struct {
-	Op      string            `json:"op"`
-	Dir     string            `json:"dir,omitempty"`
-	Graph   string            `json:"graph,omitempty"`
-	Q       string            `json:"q,omitempty"`
-	Output  string            `json:"output,omitempty"`
-	Src     string            `json:"src,omitempty"`  // base64? no: JSON string holding raw bytes via latin-1 mapping when Bin is set
-	Hex     string            `json:"hex,omitempty"`  // hex-encoded bytes (source files with arbitrary bytes)
-	File    string            `json:"file,omitempty"`
-	Path    string            `json:"path,omitempty"`
-	Text    string            `json:"text,omitempty"`
-	Order   []string          `json:"order,omitempty"`
-	Procs   int               `json:"procs,omitempty"`
-	Strs    []string          `json:"strs,omitempty"`
-	Bundle  string            `json:"bundle,omitempty"`
-	Results json.RawMessage   `json:"results,omitempty"`
-	Env     map[string]string `json:"env,omitempty"`
-	Qs      []string          `json:"qs,omitempty"`
-	Entity  []map[string]interface{} `json:"entity,omitempty"`
-	NoNodes bool              `json:"nonodes,omitempty"`
-	Delays  map[string]int    `json:"delays,omitempty"` // path -> milliseconds to stall before a worker processes it
+	Op        string                   `json:"op"`
+	Dir       string                   `json:"dir,omitempty"`
+	Graph     string                   `json:"graph,omitempty"`
+	Q         string                   `json:"q,omitempty"`
+	Output    string                   `json:"output,omitempty"`
+	Src       string                   `json:"src,omitempty"` // base64? no: JSON string holding raw bytes via latin-1 mapping when Bin is set
+	Hex       string                   `json:"hex,omitempty"` // hex-encoded bytes (source files with arbitrary bytes)
+	File      string                   `json:"file,omitempty"`
+	Path      string                   `json:"path,omitempty"`
+	Text      string                   `json:"text,omitempty"`
+	Order     []string                 `json:"order,omitempty"`
+	Procs     int                      `json:"procs,omitempty"`
+	Strs      []string                 `json:"strs,omitempty"`
+	Bundle    string                   `json:"bundle,omitempty"`
+	Results   json.RawMessage          `json:"results,omitempty"`
+	Env       map[string]string        `json:"env,omitempty"`
+	Qs        []string                 `json:"qs,omitempty"`
+	Entity    []map[string]interface{} `json:"entity,omitempty"`
+	NoNodes   bool                     `json:"nonodes,omitempty"`
+	Delays    map[string]int           `json:"delays,omitempty"`     // path -> milliseconds to stall before a worker processes it
+	MergeGate int                      `json:"merge_gate,omitempty"` // > 0: whoever merges a per-file graph first waits for the next multiple of this many milliseconds (concurrent mergers, if any, then start together)
 }
 
 type Resp map[string]interface{}
@@ -253,14 +254,25 @@ func handle(r *Req) (resp Resp) {
 			}
 		}
 		graph.VerifOnMerge = func(l *graph.CodeGraph) {
-			mu.Lock()
-			defer mu.Unlock()
-			f := ""
-			for _, n := range l.Nodes {
-				f = n.File
-				break
+			func() {
+				mu.Lock()
+				defer mu.Unlock()
+				f := ""
+				for _, n := range l.Nodes {
+					f = n.File
+					break
+				}
+				merged = append(merged, f)
+			}()
+			if r.MergeGate > 0 {
+				gate := time.Duration(r.MergeGate) * time.Millisecond
+				next := time.Now().Truncate(gate).Add(gate)
+				if d := time.Until(next) - 200*time.Microsecond; d > 0 {
+					time.Sleep(d)
+				}
+				for time.Now().Before(next) {
+				}
 			}
-			merged = append(merged, f)
 		}
 		if r.Procs > 0 {
 			defer runtime.GOMAXPROCS(runtime.GOMAXPROCS(r.Procs))
